@@ -35,8 +35,26 @@ func searchRapid[C any](t *testing.T, col *ev.Collector, gen func(*rapid.T) C, r
 	}
 	col.SetReplayTest(t.Name())
 	defer func() { col.Report(t.Failed()) }()
+	survey := os.Getenv("VERIF_SURVEY") != ""
+	seen := map[string]int{}
+	defer func() {
+		for k, n := range seen {
+			fmt.Printf("SURVEY %6d %s\n", n, k)
+		}
+	}()
 	rapid.Check(t, func(rt *rapid.T) {
 		c := gen(rt)
+		if survey {
+			for _, v := range run(c) {
+				if v != nil {
+					if seen[v.Key] == 0 {
+						fmt.Printf("SURVEY-FIRST %s: %s\n", v.Key, v.What)
+					}
+					seen[v.Key]++
+				}
+			}
+			return
+		}
 		if v := firstUnknown(col, run(c)); v != nil {
 			col.Fail(v, c)
 			rt.Fatalf("%s: %s", v.Key, v.What)
